@@ -109,6 +109,10 @@ def apply(data, f):
     if kind == "int_nudge":
         # an integer token (a count, an index) becomes another plausible integer
         toks = list(INT_RE.finditer(data))
+        if f.get("aim") == "count":
+            # announced sizes: "N=   28" in formatted checkpoint files, the first number of a counts line
+            counts = [t for t in toks if data[max(0, t.start() - 12): t.start()].rstrip().endswith(b"N=")]
+            toks = counts or toks
         if not toks:
             return data
         m = toks[f["i"] % len(toks)]
@@ -228,7 +232,8 @@ def random_fault(rng, data, kind, raw_offsets=None):
     if kind == "sep_insert":
         return {"kind": kind, "off": rng.randrange(max(1, n)), "sep": rng.choice(SEPARATORS), "replace": rng.random() < 0.5}
     if kind == "int_nudge":
-        return {"kind": kind, "i": rng.randrange(1 << 20), "how": rng.choice(["dec", "inc", "half", "double", "minus2", "third", "minus3"])}
+        return {"kind": kind, "i": rng.randrange(1 << 20), "how": rng.choice(["dec", "inc", "half", "double", "minus2", "third", "minus3"]),
+                "aim": rng.choice(["count", "any"])}
     if kind == "token_drop":
         nls = numeric_lines(data)
         return {"kind": kind, "line": rng.choice(nls) if nls else 0, "keep": rng.randrange(8)}
